@@ -304,23 +304,46 @@ def r3(ctx):
     ok = len(mw) == 1 and match(core(sym(b, mw[0].args[0])), ('arg', 1, ANY)) and match(core(sym(b, mw[0].args[1])), ('arg', 2, ANY)) and match(core(sym(b, mw[0].args[2])), Const(0))
     ctx.require(ok, b, 'matching', 'uses match_words(a, b, false)', None)
     res = nosite(core(sym(b, mw[0].dest))) if mw else None
+    from rules.common import is_projection_set, range_bounds
+    from analysis.seq import seq_of, ITEM
+    isres = Pred(lambda u: nosite(core(u)) == res)
+    MATCHES = ('field', isres, 0)
     for side, comp, cnt in ((0, 0, 1), (1, 1, 2)):
-        t = core(init_value(b, rv[0][0][3][side]))
+        raw = init_value(b, rv[0][0][3][side])
+        t = core(raw)
         e = {}
-        ok = match(t, Call('Iterator::collect', Call('HashSet::difference', Cap('all'), Cap('matched'))), e)
-        why = show_in(b, t)
-        if ok:
+        why = show_in(b, t)[:160]
+        ok = False
+        universe = lambda u: range_bounds(u) is not None and range_bounds(u)[0] == 0 and match(range_bounds(u)[1], ('field', isres, cnt)) if not isinstance(range_bounds(u)[1] if range_bounds(u) else 0, int) else False
+        if match(t, Call('Iterator::collect', Call('HashSet::difference', Cap('all'), Cap('matched'))), e):
             al = core(init_value(b, e['all']))
-            ma = core(init_value(b, e['matched']))
-            ok = match(al, Call('from_iter', ('agg', 'adt', Pred(lambda n: n.endswith('Range::Range')), (Const(0), ('field', Pred(lambda u: nosite(u) == res), cnt)))))
+            ok = match(al, Call('from_iter', ('agg', 'adt', Pred(lambda n: n.endswith('Range::Range')), (Const(0), ('field', isres, cnt)))))
             why = 'all = %s' % show_in(b, al)
             if ok:
-                mp = [x for x in walk(ma) if isinstance(x, tuple) and x and x[0] == 'call' and x[1].endswith('Iterator::map')]
-                ok = len(mp) == 1 and has(mp[0][2][0], ('field', Pred(lambda u: nosite(u) == res), 0))
-                if ok:
-                    clo = closure_of(ctx, mp[0][2][1])
-                    crv = ret_values(clo)
-                    ok = len(crv) == 1 and match(core(crv[0][0]), ('field', ('arg', 2, ANY), comp))
-                    why = 'matched side projection is %s' % (show_in(clo, crv[0][0]) if crv else '?')
+                ok = is_projection_set(ctx, b, init_value(b, peel(raw)[2][0][2][1]) if False else _matched_raw(b, raw), MATCHES, comp)
+                why = 'the matched set is not component %d of the matches' % comp
+        else:
+            # (0..n).filter(|i| !matched.contains(i)).collect()
+            segs = seq_of(ctx.facts, b, raw)
+            if segs is not None and len(segs) == 1 and segs[0].kind == 'each' and core(segs[0].elem) == ITEM and len(segs[0].conds) == 1:
+                rb = range_bounds(segs[0].src)
+                c_, pol = segs[0].conds[0]
+                cc = peel(c_)
+                ok = rb is not None and rb[0] == 0 and not isinstance(rb[1], int) and match(rb[1], ('field', isres, cnt)) and pol is False and \
+                    cc[0] == 'call' and cc[1].endswith('::contains') and core(cc[2][1]) == ITEM and is_projection_set(ctx, b, cc[2][0], MATCHES, comp)
+                why = 'complement is %r' % segs[0]
+            else:
+                raise AnchorMissing('edited_words: the %s side is neither a set difference nor a filtered index range' % 'ab'[side])
         ctx.require(ok, b, 'complement|%s' % 'ab'[side], '%s side = (0..%s_len) minus component %d of the matches' % ('ab'[side], 'ab'[side], comp),
                     '%s side is wrong: %s' % ('ab'[side], why))
+
+
+def _matched_raw(b, raw):
+    """the second operand of `all.difference(&matched)` inside the collected result, variables expanded"""
+    t = peel(raw)
+    d = peel(t[2][0]) if t[0] == 'call' and t[2] else None
+    while d is not None and d[0] == 'call' and not d[1].endswith('HashSet::difference') and d[2]:
+        d = peel(d[2][0])
+    if d is None or d[0] != 'call' or len(d[2]) < 2:
+        return ()
+    return init_value(b, d[2][1])
